@@ -21,10 +21,11 @@ Local Open Scope N_scope.
 (* Graph level.  The [graph] record holds what the engine observes of an edge (outputs + implicit
    count, inputs + implicit / order-only counts, dyndep binding, sources of the restat flag;
    producers and out-edges are functions of these), hence plain equality.
-   Hypotheses: the dyndep file is listed ONCE among the inputs of a bound edge; an edge whose
-   statement sets restat has a binding scope of its own.  Both are needed: see the two refutations. *)
+   Hypothesis: the dyndep file is listed ONCE among the inputs of a bound edge (needed: see the
+   refutation).  No hypothesis about binding scopes any more: the fixed UpdateEdge binds restat in
+   a scope private to the edge. *)
 Theorem C11_load_is_inline : forall g f stmts g',
-  listed_once g f -> restat_scoped g stmts ->
+  listed_once g f ->
   load_dyndep g f stmts = Ok g' -> g' = inline_dyndep g stmts.
 Proof. exact C11_load_is_inline_proof. Qed.
 Print Assumptions C11_load_is_inline.
@@ -32,7 +33,7 @@ Print Assumptions C11_load_is_inline.
 (* File level: whatever bytes the loader accepts, the result is the inlined graph of the statements
    the file denotes. *)
 Theorem C11_file_load_is_inline : forall g f c g',
-  listed_once g f -> bound_scoped g f ->
+  listed_once g f ->
   dyndep_load g f (Some c) = Ok g' ->
   exists stmts, parse_dyndep c = Ok stmts /\ g' = inline_dyndep g stmts.
 Proof. exact C11_file_load_is_inline_proof. Qed.
@@ -44,26 +45,44 @@ Theorem C11_load_print : forall g f stmts,
 Proof. exact C11_load_print_proof. Qed.
 Print Assumptions C11_load_print.
 
-(* REFUTED without the hypotheses (findings about the real code, both reproduced on it):
-   1. "restat = 1" of a dyndep file for an edge whose dyndep binding comes from its RULE (no indented
-      binding => Edge::env_ is the file-level scope) makes EVERY edge of the manifest a restat edge;
-   2. a dyndep file listed twice among the inputs of a bound edge makes UpdateEdge run twice. *)
+(* The fix, for all graphs and all statement lists (no hypothesis): a load never touches the
+   file-level scope, so the restat flag of the edges the file does not mention is what it was. *)
+Theorem C11_load_keeps_file_scope : forall g f stmts g',
+  load_dyndep g f stmts = Ok g' -> g_file_restat g' = g_file_restat g.
+Proof. exact C11_load_keeps_file_scope_proof. Qed.
+Print Assumptions C11_load_keeps_file_scope.
+
+(* REFUTED without the hypothesis (finding about the real code, reproduced on it): a dyndep file
+   listed twice among the inputs of a bound edge makes UpdateEdge run twice. *)
 Theorem C11_load_is_inline_unconditional_refuted : ~ C11_load_is_inline_full.
 Proof. exact C11_load_is_inline_full_refuted. Qed.
 Print Assumptions C11_load_is_inline_unconditional_refuted.
-
-Theorem C11_restat_leak_witness :
-  exists g f stmts g', load_dyndep g f stmts = Ok g' /\ g' <> inline_dyndep g stmts /\
-    exists e e', nth_error (g_edges g') 1 = Some e' /\
-                 nth_error (g_edges (inline_dyndep g stmts)) 1 = Some e /\
-                 edge_restat g' e' = true /\ edge_restat (inline_dyndep g stmts) e = false.
-Proof. exact C11_load_is_inline_refuted_restat_leak. Qed.
-Print Assumptions C11_restat_leak_witness.
 
 Theorem C11_listed_twice_witness :
   exists g f stmts g', load_dyndep g f stmts = Ok g' /\ g' <> inline_dyndep g stmts.
 Proof. exact C11_load_is_inline_refuted_listed_twice. Qed.
 Print Assumptions C11_listed_twice_witness.
+
+(* REFUTATION ABOUT THE OLD CODE ([load_dyndep_old] = the loader with UpdateEdge as it was before
+   "fix: bind dyndep-supplied restat in a scope private to the edge"): "restat = 1" of a dyndep file
+   for an edge whose dyndep binding comes from its RULE (no indented binding => Edge::env_ was the
+   file-level scope) made EVERY edge of the manifest a restat edge.  The defect was found by this
+   model, reproduced on the real code and fixed in /repo. *)
+Theorem C11_restat_leak_witness :
+  exists g f stmts g', load_dyndep_old g f stmts = Ok g' /\ g' <> inline_dyndep g stmts /\
+    exists e e', nth_error (g_edges g') 1 = Some e' /\
+                 nth_error (g_edges (inline_dyndep g stmts)) 1 = Some e /\
+                 edge_restat g' e' = true /\ edge_restat (inline_dyndep g stmts) e = false.
+Proof. exact C11_old_load_refuted_restat_leak. Qed.
+Print Assumptions C11_restat_leak_witness.
+
+(* ... and the same scenario with the fixed loader *)
+Theorem C11_restat_leak_fixed :
+  load_dyndep w_leak_graph w_dd w_leak_stmts = Ok (inline_dyndep w_leak_graph w_leak_stmts) /\
+  exists e, nth_error (g_edges (inline_dyndep w_leak_graph w_leak_stmts)) 1 = Some e /\
+            edge_restat (inline_dyndep w_leak_graph w_leak_stmts) e = false.
+Proof. exact C11_restat_leak_fixed_on_witness. Qed.
+Print Assumptions C11_restat_leak_fixed.
 
 (* ------------------------------------------------------------------------------------------ *)
 (** * Invalid files are rejected: the loader's one-to-one and collision checks *)
@@ -316,28 +335,9 @@ Proof.
   - destruct i; discriminate.
 Qed.
 
-Example ex_bound_scoped : bound_scoped ex_graph n_dd.
-Proof.
-  intros i e H Hb. destruct i as [|[|[|i]]]; cbn [ex_graph g_edges nth_error] in H.
-  - injection H as <-. discriminate.
-  - injection H as <-. discriminate.
-  - injection H as <-. vm_compute in Hb. discriminate.
-  - destruct i; discriminate.
-Qed.
-
-Example ex_restat_scoped : restat_scoped ex_graph ex_stmts.
-Proof.
-  intros i e st H Hf Hr. destruct i as [|[|[|i]]]; cbn [ex_graph g_edges nth_error] in H.
-  - injection H as <-. discriminate.
-  - injection H as <-. discriminate.
-  - vm_compute in Hf. discriminate.
-  - destruct i; discriminate.
-Qed.
-
 (* the premises of C11_load_is_inline / C11_file_load_is_inline / C11_load_print hold, the load succeeds *)
 Example C11_load_is_inline_nonvacuous :
-  listed_once ex_graph n_dd /\ restat_scoped ex_graph ex_stmts /\ bound_scoped ex_graph n_dd /\
-  check_stmts ex_graph [] ex_stmts = None /\
+  listed_once ex_graph n_dd /\ check_stmts ex_graph [] ex_stmts = None /\
   exists g', load_dyndep ex_graph n_dd ex_stmts = Ok g' /\
              dyndep_load ex_graph n_dd (Some ex_file) = Ok g' /\
              (* what the load did: out1 got gen.h as output, hdr.h as implicit input, restat;
@@ -346,7 +346,7 @@ Example C11_load_is_inline_nonvacuous :
                            mkEdge [n_out2; n_side] 1 [n_out1; n_gen; n_dd] 1 1 (Some n_dd) (Scope None) None;
                            mkEdge [n_other] 0 [n_in] 0 0 None NoScope None] None.
 Proof.
-  split; [exact ex_listed_once|]. split; [exact ex_restat_scoped|]. split; [exact ex_bound_scoped|].
+  split; [exact ex_listed_once|].
   split; [vm_compute; reflexivity|]. eexists. split; [vm_compute; reflexivity|].
   split; vm_compute; reflexivity.
 Qed.
